@@ -120,7 +120,7 @@ func (e *integEngine) checkC06(x *integExpect) {
 			}
 		}
 		rt := e.resultTask(t.Name)
-		if rt.Skipped != want.Skipped {
+		if rt != nil && rt.Skipped != want.Skipped {
 			c.Violate("C06", "skipped-flag", "task %s: Skipped=%v, model %v", t.Name, rt.Skipped, want.Skipped)
 		}
 		if len(got) >= 2 {
